@@ -8,6 +8,8 @@
 //!   componentize  `<hex path of core module> <hex wit> <world|-> <enc>`
 //!                 Answer: `ok <json>` with the requested world's and the encoded component's
 //!                 import/export items | `err <hex msg>` | `panic <hex msg>`
+//!   witvalid      `<hex wit> <world|->`  → `ok` when the WIT package encodes to a component type that the
+//!                 component validator accepts (independent check that an adversarial world is a *valid* world)
 //!   ident         `<hex name>`  →  `<hex wit_bindgen_c::to_c_ident(name)>`
 use serde_json::{json, Value};
 use std::fmt::Write as _;
@@ -374,6 +376,26 @@ fn describe(r: &Resolve, world: WorldId, world_name: &str, is_async: bool) -> (V
     (funcs, resources)
 }
 
+/// WIT given as text, or as `path:<file or directory>` (wit-parser `push_path`, for the multi-file
+/// worlds of tests/codegen)
+fn push(resolve: &mut Resolve, wit: &str) -> anyhow::Result<PackageId> {
+    match wit.strip_prefix("path:") {
+        Some(p) => Ok(resolve.push_path(p.trim())?.0),
+        None => resolve.push_str("probe.wit", wit),
+    }
+}
+
+/// the world the codegen tests select (crates/test/src/lib.rs `codegen_test`): the default world,
+/// else the one named `imports`
+fn select(resolve: &Resolve, pkg: PackageId, name: Option<&str>) -> anyhow::Result<WorldId> {
+    match name {
+        Some(_) => resolve.select_world(&[pkg], name),
+        None => resolve
+            .select_world(&[pkg], None)
+            .or_else(|err| resolve.select_world(&[pkg], Some("imports")).map_err(|_| err)),
+    }
+}
+
 fn gen(line: &str) -> String {
     let toks: Vec<&str> = line.split(' ').collect();
     if toks.len() != 4 {
@@ -386,8 +408,8 @@ fn gen(line: &str) -> String {
     let mut generator = g.opts.build();
     let r = catch_unwind(AssertUnwindSafe(|| -> anyhow::Result<Value> {
         let mut resolve = Resolve::default();
-        let pkg = resolve.push_str("probe.wit", &wit)?;
-        let world = resolve.select_world(&[pkg], world_name)?;
+        let pkg = push(&mut resolve, &wit)?;
+        let world = select(&resolve, pkg, world_name)?;
         let wname = resolve.worlds[world].name.clone();
         let (funcs, resources) = describe(&resolve, world, &wname, is_async);
         let mut files = Files::default();
@@ -451,8 +473,8 @@ fn componentize(line: &str) -> String {
     let r = catch_unwind(AssertUnwindSafe(|| -> anyhow::Result<Value> {
         let module = std::fs::read(&path)?;
         let mut resolve = Resolve::default();
-        let pkg = resolve.push_str("probe.wit", &wit)?;
-        let world = resolve.select_world(&[pkg], world_name)?;
+        let pkg = push(&mut resolve, &wit)?;
+        let world = select(&resolve, pkg, world_name)?;
         let want = world_items(&resolve, world);
         let bytes = wit_component::ComponentEncoder::default()
             .module(&module)?
@@ -471,6 +493,28 @@ fn componentize(line: &str) -> String {
     }
 }
 
+fn witvalid(line: &str) -> String {
+    let toks: Vec<&str> = line.split(' ').collect();
+    if toks.len() != 2 {
+        return "bad-request expected: <hex wit> <world|->".into();
+    }
+    let Some(wit) = unhex(toks[0]) else { return "bad-request hex".into() };
+    let world_name = if toks[1] == "-" { None } else { Some(toks[1]) };
+    let r = catch_unwind(AssertUnwindSafe(|| -> anyhow::Result<()> {
+        let mut resolve = Resolve::default();
+        let pkg = push(&mut resolve, &wit)?;
+        let _world = select(&resolve, pkg, world_name)?;
+        let bytes = wit_component::encode(&resolve, pkg)?;
+        wasmparser::Validator::new_with_features(wasmparser::WasmFeatures::all()).validate_all(&bytes)?;
+        Ok(())
+    }));
+    match r {
+        Ok(Ok(())) => "ok".into(),
+        Ok(Err(e)) => format!("err {}", hex(&format!("{e:#}"))),
+        Err(e) => format!("panic {}", hex(&panic_msg(e))),
+    }
+}
+
 fn ident(line: &str) -> String {
     match unhex(line) {
         Some(s) => hex(&wit_bindgen_c::to_c_ident(&s)),
@@ -484,6 +528,7 @@ fn main() {
         "gen" => gen,
         "componentize" => componentize,
         "ident" => ident,
+        "witvalid" => witvalid,
         other => panic!("unknown engine {other}"),
     };
     std::panic::set_hook(Box::new(|_| {}));
